@@ -7,30 +7,725 @@ package antlr
 // T-ANTLR: the generated parser's context accessors are opaque. The listener's own stack and the receivers are T-USER-like
 // externs: Accept* links a child into its (not yet filed) parent and never touches a negation flag.
 // (listener discipline, ASSUMED: the stack holds only nodes created by the matching Enter* handler, which are not filed yet)
-//@ extern func (s *stack) Pop() (v)
+// The listener's stack is checked: $nrank[n] = number of stack nodes from n down to the bottom (ghost), so that
+// "length != 0" really means "top != nil" and Pop never dereferences nil.
+//@ ghost var $nrank array[Ref]int
+//@ macro func nodesInv() bool { return forall n *node {n.prev} :: $nrank[n] >= 1 ==> allocated(n) && ($nrank[n] == 1) == (n.prev == nil) && (n.prev != nil ==> $nrank[n.prev] == $nrank[n] - 1) }
+//@ macro func stackInv(s *stack) bool { return s != nil && s.length >= 0 && (s.length == 0) == (s.top == nil) && (s.top != nil ==> $nrank[s.top] == s.length) && nodesInv() }
+//@ func newStack() (s)
+//@   serves C17 C20
+//@   opt alloc=1
+//@   requires nodesInv()
 //@   nopanic
-//@   modifies stack.*
-//@   ensures !$filedE[v] && !$filedA[v]
-//@ extern func (s *stack) Peek() (v)
+//@   modifies alloc, fresh stack.*
+//@   ensures fresh(s) && stackInv(s) && s.length == 0
+//@ func (s *stack) Push(value) ()
+//@   serves C17 C20 C07
+//@   opt alloc=1
+//@   requires stackInv(s)
 //@   nopanic
+//@   modifies stack.top, stack.length, alloc, fresh node.*, $nrank
+//@   ghost_exit $nrank = store($nrank, s.top, s.length)
+//@   ensures inv: stackInv(s)
+//@   ensures grown: s.length == old(s.length) + 1 && s.top.value == value
+//@   ensures others: forall t *stack :: t != s ==> t.top == old(t.top) && t.length == old(t.length)
+//@ func (s *stack) Pop() (v)
+//@   serves C17 C20 C07
+//@   opt alloc=1
+//@   requires stackInv(s)
+//@   nopanic
+//@   modifies stack.top, stack.length
+//@   ensures inv: stackInv(s)
+//@   ensures popped: old(s.length) == 0 ==> v == nil && s.length == 0
+//@   ensures popped2: old(s.length) > 0 ==> v == old(s.top.value) && s.length == old(s.length) - 1 && s.top == old(s.top.prev)
+//@   ensures others: forall t *stack :: t != s ==> t.top == old(t.top) && t.length == old(t.length)
+// (listener discipline, ASSUMED: the stack holds only nodes created by the matching Enter* handler, which are not filed yet)
+//@   trusted_ensures !$filedE[v] && !$filedA[v]
+//@   trusted_ensures forall m map[string]*ast.RuleEntry, k string :: has(m, k) ==> m[k] != v
+// (heap typing: a reference stored in the heap refers to an allocated object)
+//@   trusted_ensures typeof(v) == typeid(*ast.RuleEntry) ==> allocated(v)
+//@ func (s *stack) Peek() (v)
+//@   serves C17 C20 C07
+//@   opt alloc=1
+//@   requires stackInv(s)
+//@   nopanic
+//@   modifies
+//@   ensures peeked: v == ite(s.length == 0, nil, s.top.value)
+
+// T-ANTLR: the text of a parse-tree node is a function of the node; strconv (trusted/strconv.spec)
+//@ extern pure func antlr_GetText(c Ref) string
+//@ extern pure func antlr_SIMPLENAME(c Ref) Ref
+//@ extern pure func antlr_RuleDescription(c Ref) Ref
+// unquoteString (a port of strconv.Unquote that also accepts single quotes) is outside the verified subset (byte-level append):
+// ASSUMED not to panic and to have no effect
+//@ extern func unquoteString(theStr) (s, err)
+//@   nopanic
+//@   modifies
+
+// listener invariant: everything a callback dereferences exists, and the stack is well-formed
+//@ macro func LInv(l *GruleV3ParserListener) bool { return l != nil && stackInv(l.Stack) && l.ErrorCallback != nil && l.KnowledgeBase != nil && l.KnowledgeBase.WorkingMemory != nil
+//@      && l.KnowledgeBase.WorkingMemory.expressionSnapshotMap != nil && l.KnowledgeBase.WorkingMemory.expressionAtomSnapshotMap != nil && l.KnowledgeBase.WorkingMemory.variableSnapshotMap != nil }
+// the rule maps the listener feeds are well-formed (every entry is filed under its own name) and distinct
+//@ macro func RInv(l *GruleV3ParserListener) bool { return KBInv(l.KnowledgeBase) && allocated(l.KnowledgeBase.RuleEntries) && (forall k string {l.KnowledgeBase.RuleEntries[k]} :: has(l.KnowledgeBase.RuleEntries, k) ==> allocated(l.KnowledgeBase.RuleEntries[k]))
+//@      && (l.Grl != nil ==> GrlInv(l.Grl) && l.Grl.RuleEntries != l.KnowledgeBase.RuleEntries && (forall k string {l.Grl.RuleEntries[k]} :: has(l.Grl.RuleEntries, k) ==> allocated(l.Grl.RuleEntries[k]))) }
+// a callback never drops an error that was reported, and never swaps the reporter
+//@ macro func errorsKept(l *GruleV3ParserListener) bool { return l.ErrorCallback == old(l.ErrorCallback) && len(l.ErrorCallback.Errors) >= old(len(l.ErrorCallback.Errors)) }
+//@ modset listenerfx = GruleV3ParserListener.PreviousNode, GruleV3ParserListener.Grl, GruleV3ParserListener.StopParse, stack.top, stack.length, node.*, $nrank, alloc, pkg.GruleErrorReporter.Errors, ast.Grl.*, ast.RuleEntry.*, ast.Salience.*, ast.WhenScope.*, ast.ThenScope.*, ast.ThenExpressionList.*, ast.ThenExpression.*, ast.Assignment.*, ast.Expression.*, ast.ExpressionAtom.*, ast.Variable.*, ast.ArrayMapSelector.*, ast.FunctionCall.*, ast.ArgumentList.*, ast.Constant.*, fresh ast.IntegerLiteral.*, fresh ast.FloatLiteral.*, fresh ast.BooleanLiteral.*, fresh ast.StringLiteral.*, map[string]*ast.RuleEntry, map[string]*ast.Expression, map[string]*ast.ExpressionAtom, map[string]*ast.Variable, $filedE, $filedNegE, $filedA, $filedNegA
+
+// ---- generated by /verif/gen/gen_accept_contracts.py: receiver interfaces (closed world: the implementers in package ast, each
+// checked against the same no-panic clause and a frame inside the union below) ----
+//@ extern func (r ast.ArgumentListReceiver) AcceptArgumentList(argList) (err)
+//@   nopanic
+//@   modifies ast.FunctionCall.ArgumentList
+//@   implementers (*ast.FunctionCall).AcceptArgumentList
+//@ extern func (r ast.ArrayMapSelectorReceiver) AcceptArrayMapSelector(sel) (err)
+//@   nopanic
+//@   modifies ast.ExpressionAtom.ArrayMapSelector, ast.Variable.ArrayMapSelector
+//@   implementers (*ast.ExpressionAtom).AcceptArrayMapSelector, (*ast.Variable).AcceptArrayMapSelector
+//@ extern func (r ast.AssignmentReceiver) AcceptAssignment(assignment) (err)
+//@   nopanic
+//@   modifies ast.ThenExpression.Assignment
+//@   implementers (*ast.ThenExpression).AcceptAssignment
+//@ extern func (r ast.BooleanLiteralReceiver) AcceptBooleanLiteral(fun) ()
+//@   requires fun != nil
+//@   nopanic
+//@   modifies ast.Constant.Value
+//@   implementers (*ast.Constant).AcceptBooleanLiteral
+//@ extern func (r ast.ConstantReceiver) AcceptConstant(cons) (err)
+//@   nopanic
+//@   modifies ast.ExpressionAtom.Constant
+//@   implementers (*ast.ExpressionAtom).AcceptConstant
 //@ extern func (r ast.ExpressionReceiver) AcceptExpression(exp) (err)
-//@   modifies ast.Expression.LeftExpression, ast.Expression.RightExpression, ast.Expression.SingleExpression, ast.WhenScope.Expression, ast.Assignment.Expression, ast.ArrayMapSelector.Expression, ast.ArgumentList.Arguments
-//@ extern func (r ast.ExpressionAtomReceiver) AcceptExpressionAtom(exp) (err)
-//@   modifies ast.Expression.ExpressionAtom, ast.ExpressionAtom.ExpressionAtom, ast.ThenExpression.ExpressionAtom
-//@ extern func (r *pkg.GruleErrorReporter) AddError(err) ()
 //@   nopanic
-//@   modifies pkg.GruleErrorReporter.*
+//@   modifies ast.ArgumentList.Arguments, ast.ArrayMapSelector.Expression, ast.Assignment.Expression, ast.Expression.LeftExpression, ast.Expression.RightExpression, ast.Expression.SingleExpression, ast.WhenScope.Expression
+//@   implementers (*ast.ArgumentList).AcceptExpression, (*ast.ArrayMapSelector).AcceptExpression, (*ast.Assignment).AcceptExpression, (*ast.Expression).AcceptExpression, (*ast.WhenScope).AcceptExpression
+//@ extern func (r ast.ExpressionAtomReceiver) AcceptExpressionAtom(atom) (err)
+//@   nopanic
+//@   modifies ast.Expression.ExpressionAtom, ast.ExpressionAtom.ExpressionAtom, ast.ThenExpression.ExpressionAtom
+//@   implementers (*ast.Expression).AcceptExpressionAtom, (*ast.ExpressionAtom).AcceptExpressionAtom, (*ast.ThenExpression).AcceptExpressionAtom
+//@ extern func (r ast.FloatLiteralReceiver) AcceptFloatLiteral(fun) ()
+//@   requires fun != nil
+//@   nopanic
+//@   modifies ast.Constant.Value
+//@   implementers (*ast.Constant).AcceptFloatLiteral
+//@ extern func (r ast.FunctionCallReceiver) AcceptFunctionCall(fun) (err)
+//@   nopanic
+//@   modifies ast.ExpressionAtom.FunctionCall
+//@   implementers (*ast.ExpressionAtom).AcceptFunctionCall
+//@ extern func (r ast.IntegerLiteralReceiver) AcceptIntegerLiteral(fun) ()
+//@   requires fun != nil
+//@   panics_only_if typeof(r) == typeid(*ast.Salience) && (fun.Integer < -2147483648 || fun.Integer > 2147483647)
+//@   modifies ast.Constant.Value, ast.Salience.SalienceValue
+//@   implementers (*ast.Constant).AcceptIntegerLiteral, (*ast.Salience).AcceptIntegerLiteral
+//@ extern func (r ast.MemberVariableReceiver) AcceptMemberVariable(name) ()
+//@   nopanic
+//@   modifies ast.ExpressionAtom.VariableName, ast.Variable.Name
+//@   implementers (*ast.ExpressionAtom).AcceptMemberVariable, (*ast.Variable).AcceptMemberVariable
+//@ extern func (r ast.SalienceReceiver) AcceptSalience(salience) (err)
+//@   requires salience != nil
+//@   nopanic
+//@   modifies ast.RuleEntry.Salience
+//@   implementers (*ast.RuleEntry).AcceptSalience
+//@ extern func (r ast.StringLiteralReceiver) AcceptStringLiteral(fun) ()
+//@   requires fun != nil
+//@   nopanic
+//@   modifies ast.Constant.Value
+//@   implementers (*ast.Constant).AcceptStringLiteral
+//@ extern func (r ast.ThenExpressionReceiver) AcceptThenExpression(expr) (err)
+//@   nopanic
+//@   modifies ast.ThenExpressionList.ThenExpressions
+//@   implementers (*ast.ThenExpressionList).AcceptThenExpression
+//@ extern func (r ast.ThenExpressionListReceiver) AcceptThenExpressionList(list) (err)
+//@   nopanic
+//@   modifies ast.ThenScope.ThenExpressionList
+//@   implementers (*ast.ThenScope).AcceptThenExpressionList
+//@ extern func (r ast.ThenScopeReceiver) AcceptThenScope(thenScope) (err)
+//@   nopanic
+//@   modifies ast.RuleEntry.ThenScope
+//@   implementers (*ast.RuleEntry).AcceptThenScope
+//@ extern func (r ast.VariableReceiver) AcceptVariable(vari) (err)
+//@   nopanic
+//@   modifies ast.Assignment.Variable, ast.ExpressionAtom.Variable, ast.Variable.Variable
+//@   implementers (*ast.Assignment).AcceptVariable, (*ast.ExpressionAtom).AcceptVariable, (*ast.Variable).AcceptVariable
+//@ extern func (r ast.WhenScopeReceiver) AcceptWhenScope(when) (err)
+//@   nopanic
+//@   modifies ast.RuleEntry.WhenScope
+//@   implementers (*ast.RuleEntry).AcceptWhenScope
+//@ extern func (r ast.RuleEntryReceiver) ReceiveRuleEntry(entry) (err)
+//@   requires entry != nil
+//@   nopanic
+//@   modifies map[string]*ast.RuleEntry, ast.Grl.RuleEntries, alloc
+//@   implementers (*ast.Grl).ReceiveRuleEntry
 
 // C07: the listener files a node only when everything its snapshot depends on is final; nothing already filed is changed
 //@ func (thisListener *GruleV3ParserListener) ExitExpression(ctx) ()
 //@   serves C07
-//@   requires thisListener != nil && thisListener.KnowledgeBase != nil && thisListener.KnowledgeBase.WorkingMemory != nil && thisListener.KnowledgeBase.WorkingMemory.expressionSnapshotMap != nil
+//@   requires thisListener != nil && thisListener.KnowledgeBase != nil && thisListener.KnowledgeBase.WorkingMemory != nil && thisListener.KnowledgeBase.WorkingMemory.expressionSnapshotMap != nil && thisListener.ErrorCallback != nil && stackInv(thisListener.Stack)
 //@   requires filedStable()
 //@   modifies GruleV3ParserListener.StopParse, stack.*, pkg.GruleErrorReporter.*, ast.Expression.Negated, map[string]*ast.Expression, ast.Expression.LeftExpression, ast.Expression.RightExpression, ast.Expression.SingleExpression, ast.WhenScope.Expression, ast.Assignment.Expression, ast.ArrayMapSelector.Expression, ast.ArgumentList.Arguments, $filedE, $filedNegE
 //@   ensures[C07] filedstable: filedStable()
 //@ func (thisListener *GruleV3ParserListener) ExitExpressionAtom(ctx) ()
 //@   serves C07
-//@   requires thisListener != nil && thisListener.KnowledgeBase != nil && thisListener.KnowledgeBase.WorkingMemory != nil && thisListener.KnowledgeBase.WorkingMemory.expressionAtomSnapshotMap != nil
+//@   requires thisListener != nil && thisListener.KnowledgeBase != nil && thisListener.KnowledgeBase.WorkingMemory != nil && thisListener.KnowledgeBase.WorkingMemory.expressionAtomSnapshotMap != nil && thisListener.ErrorCallback != nil && stackInv(thisListener.Stack)
 //@   requires filedStable()
 //@   modifies GruleV3ParserListener.StopParse, stack.*, pkg.GruleErrorReporter.*, ast.ExpressionAtom.Negated, map[string]*ast.ExpressionAtom, ast.Expression.ExpressionAtom, ast.ExpressionAtom.ExpressionAtom, ast.ThenExpression.ExpressionAtom, $filedA, $filedNegA
 //@   ensures[C07] filedstable: filedStable()
+
+// ---- the listener as the builder sees it ----
+//@ func NewGruleV3ParserListener(KnowledgeBase, errorCallBack) (r)
+//@   serves C17 C20
+//@   opt alloc=1
+//@   requires kbWF(KnowledgeBase) && errorCallBack != nil && nodesInv()
+//@   nopanic
+//@   modifies alloc, fresh GruleV3ParserListener.*, fresh stack.*
+//@   ensures made: fresh(r) && LInv(r) && RInv(r) && r.ErrorCallback == errorCallBack && r.KnowledgeBase == KnowledgeBase && r.Grl == nil && !r.StopParse
+// T-ANTLR: the tree walker calls nothing but the listener's callbacks, each in a state satisfying that callback's stated
+// precondition (walk order, children the grammar requires are present). Every callback is CHECKED to keep LInv/RInv, never to
+// drop a reported error, never to reset StopParse or Grl, and not to panic; EnterGrl (always called on the root) sets Grl.
+// Hence (rely/guarantee, argued on paper) the walk as a whole has the same properties:
+//@ extern func (p *github.com/antlr4-go/antlr/v4.ParseTreeWalker) Walk(listener, t) ()
+//@   requires typeof(listener) == typeid(*GruleV3ParserListener) && LInv(as(listener, *GruleV3ParserListener)) && RInv(as(listener, *GruleV3ParserListener)) && filedStable()
+//@   nopanic
+//@   modifies @listenerfx
+//@   ensures LInv(as(listener, *GruleV3ParserListener)) && RInv(as(listener, *GruleV3ParserListener)) && errorsKept(as(listener, *GruleV3ParserListener)) && as(listener, *GruleV3ParserListener).Grl != nil
+//@   ensures as(listener, *GruleV3ParserListener).KnowledgeBase == old(as(listener, *GruleV3ParserListener).KnowledgeBase)
+//@   ghost_exit $walked = true
+//@   ghost_exit $walkL = listener
+//@   ghost_exit $walkTreeFromParse = $parsed && t == $lastTree
+
+// ---- generated by /verif/gen/gen_listener_contracts.py: listener callbacks (template: no panic, invariant, errors kept) ----
+//@ func (thisListener *GruleV3ParserListener) VisitTerminal(node) ()
+//@   serves C17 C20
+//@   opt alloc=1
+//@   requires LInv(thisListener) && RInv(thisListener) && node != nil
+//@   nopanic
+//@   modifies @listenerfx
+//@   ensures inv: LInv(thisListener)
+//@   ensures errorskept: errorsKept(thisListener)
+//@   ensures sticky: old(thisListener.StopParse) ==> thisListener.StopParse
+//@   ensures rules: RInv(thisListener) && (old(thisListener.Grl) != nil ==> thisListener.Grl != nil)
+//@ func (thisListener *GruleV3ParserListener) VisitErrorNode(node) ()
+//@   serves C17 C20
+//@   opt alloc=1
+//@   requires LInv(thisListener) && RInv(thisListener) && node != nil
+//@   nopanic
+//@   modifies @listenerfx
+//@   ensures inv: LInv(thisListener)
+//@   ensures errorskept: errorsKept(thisListener)
+//@   ensures sticky: old(thisListener.StopParse) ==> thisListener.StopParse
+//@   ensures rules: RInv(thisListener) && (old(thisListener.Grl) != nil ==> thisListener.Grl != nil)
+//@ func (thisListener *GruleV3ParserListener) EnterEveryRule(ctx) ()
+//@   serves C17 C20
+//@   opt alloc=1
+//@   requires LInv(thisListener) && RInv(thisListener) && ctx != nil
+//@   nopanic
+//@   modifies @listenerfx
+//@   ensures inv: LInv(thisListener)
+//@   ensures errorskept: errorsKept(thisListener)
+//@   ensures sticky: old(thisListener.StopParse) ==> thisListener.StopParse
+//@   ensures rules: RInv(thisListener) && (old(thisListener.Grl) != nil ==> thisListener.Grl != nil)
+//@ func (thisListener *GruleV3ParserListener) ExitEveryRule(ctx) ()
+//@   serves C17 C20
+//@   opt alloc=1
+//@   requires LInv(thisListener) && RInv(thisListener) && ctx != nil
+//@   nopanic
+//@   modifies @listenerfx
+//@   ensures inv: LInv(thisListener)
+//@   ensures errorskept: errorsKept(thisListener)
+//@   ensures sticky: old(thisListener.StopParse) ==> thisListener.StopParse
+//@   ensures rules: RInv(thisListener) && (old(thisListener.Grl) != nil ==> thisListener.Grl != nil)
+//@ func (thisListener *GruleV3ParserListener) EnterGrl(ctx) ()
+//@   serves C17 C20
+//@   opt alloc=1
+//@   requires LInv(thisListener) && RInv(thisListener) && ctx != nil
+//@   nopanic
+//@   modifies @listenerfx
+//@   ensures inv: LInv(thisListener)
+//@   ensures errorskept: errorsKept(thisListener)
+//@   ensures sticky: old(thisListener.StopParse) ==> thisListener.StopParse
+//@   ensures rules: RInv(thisListener) && (old(thisListener.Grl) != nil ==> thisListener.Grl != nil)
+//@   ensures entered: thisListener.Grl != nil
+//@ func (thisListener *GruleV3ParserListener) ExitGrl(ctx) ()
+//@   serves C17 C20
+//@   opt alloc=1
+//@   requires LInv(thisListener) && RInv(thisListener) && ctx != nil
+// T-ANTLR / walk order (ASSUMED): EnterGrl ran before
+//@   requires thisListener.Grl != nil
+//@   nopanic
+//@   modifies @listenerfx
+//@   ensures inv: LInv(thisListener)
+//@   ensures errorskept: errorsKept(thisListener)
+//@   ensures sticky: old(thisListener.StopParse) ==> thisListener.StopParse
+//@   ensures rules: RInv(thisListener) && (old(thisListener.Grl) != nil ==> thisListener.Grl != nil)
+//@   invariant@1 inv: LInv(thisListener) && KBInv(thisListener.KnowledgeBase) && RInv(thisListener) && thisListener.Grl == old(thisListener.Grl) && thisListener.Grl != nil
+//@   invariant@1 grlkept: forall k string :: has(thisListener.Grl.RuleEntries, k) == old(has(thisListener.Grl.RuleEntries, k)) && thisListener.Grl.RuleEntries[k] == old(thisListener.Grl.RuleEntries[k])
+//@   invariant@1 errorskept: errorsKept(thisListener)
+//@   invariant@1 sticky: old(thisListener.StopParse) ==> thisListener.StopParse
+//@ func (thisListener *GruleV3ParserListener) EnterRuleEntry(ctx) ()
+//@   serves C17 C20
+//@   opt alloc=1
+//@   requires LInv(thisListener) && RInv(thisListener) && ctx != nil
+//@   nopanic
+//@   modifies @listenerfx
+//@   ensures inv: LInv(thisListener)
+//@   ensures errorskept: errorsKept(thisListener)
+//@   ensures sticky: old(thisListener.StopParse) ==> thisListener.StopParse
+//@   ensures rules: RInv(thisListener) && (old(thisListener.Grl) != nil ==> thisListener.Grl != nil)
+//@ func (thisListener *GruleV3ParserListener) ExitRuleEntry(ctx) ()
+//@   serves C17 C20
+//@   opt alloc=1
+//@   requires LInv(thisListener) && RInv(thisListener) && ctx != nil
+// T-ANTLR / walk order (ASSUMED): children the grammar requires are present; below a rule entry the stack holds the listener's own Grl
+//@   requires (antlr_RuleDescription(ctx) != nil ==> len(antlr_GetText(antlr_RuleDescription(ctx))) >= 2) && (thisListener.Stack.length >= 2 && typeof(thisListener.Stack.top.prev.value) == typeid(*ast.Grl) ==> thisListener.Stack.top.prev.value == thisListener.Grl)
+//@   nopanic
+//@   modifies @listenerfx
+//@   ensures inv: LInv(thisListener)
+//@   ensures errorskept: errorsKept(thisListener)
+//@   ensures sticky: old(thisListener.StopParse) ==> thisListener.StopParse
+//@   ensures rules: RInv(thisListener) && (old(thisListener.Grl) != nil ==> thisListener.Grl != nil)
+//@ func (thisListener *GruleV3ParserListener) EnterSalience(ctx) ()
+//@   serves C17 C20
+//@   opt alloc=1
+//@   requires LInv(thisListener) && RInv(thisListener) && ctx != nil
+//@   nopanic
+//@   modifies @listenerfx
+//@   ensures inv: LInv(thisListener)
+//@   ensures errorskept: errorsKept(thisListener)
+//@   ensures sticky: old(thisListener.StopParse) ==> thisListener.StopParse
+//@   ensures rules: RInv(thisListener) && (old(thisListener.Grl) != nil ==> thisListener.Grl != nil)
+//@ func (thisListener *GruleV3ParserListener) ExitSalience(ctx) ()
+//@   serves C17 C20
+//@   opt alloc=1
+//@   requires LInv(thisListener) && RInv(thisListener) && ctx != nil
+//@   nopanic
+//@   modifies @listenerfx
+//@   ensures inv: LInv(thisListener)
+//@   ensures errorskept: errorsKept(thisListener)
+//@   ensures sticky: old(thisListener.StopParse) ==> thisListener.StopParse
+//@   ensures rules: RInv(thisListener) && (old(thisListener.Grl) != nil ==> thisListener.Grl != nil)
+//@ func (thisListener *GruleV3ParserListener) EnterWhenScope(ctx) ()
+//@   serves C17 C20
+//@   opt alloc=1
+//@   requires LInv(thisListener) && RInv(thisListener) && ctx != nil
+//@   nopanic
+//@   modifies @listenerfx
+//@   ensures inv: LInv(thisListener)
+//@   ensures errorskept: errorsKept(thisListener)
+//@   ensures sticky: old(thisListener.StopParse) ==> thisListener.StopParse
+//@   ensures rules: RInv(thisListener) && (old(thisListener.Grl) != nil ==> thisListener.Grl != nil)
+//@ func (thisListener *GruleV3ParserListener) ExitWhenScope(ctx) ()
+//@   serves C17 C20
+//@   opt alloc=1
+//@   requires LInv(thisListener) && RInv(thisListener) && ctx != nil
+//@   nopanic
+//@   modifies @listenerfx
+//@   ensures inv: LInv(thisListener)
+//@   ensures errorskept: errorsKept(thisListener)
+//@   ensures sticky: old(thisListener.StopParse) ==> thisListener.StopParse
+//@   ensures rules: RInv(thisListener) && (old(thisListener.Grl) != nil ==> thisListener.Grl != nil)
+//@ func (thisListener *GruleV3ParserListener) EnterThenScope(ctx) ()
+//@   serves C17 C20
+//@   opt alloc=1
+//@   requires LInv(thisListener) && RInv(thisListener) && ctx != nil
+//@   nopanic
+//@   modifies @listenerfx
+//@   ensures inv: LInv(thisListener)
+//@   ensures errorskept: errorsKept(thisListener)
+//@   ensures sticky: old(thisListener.StopParse) ==> thisListener.StopParse
+//@   ensures rules: RInv(thisListener) && (old(thisListener.Grl) != nil ==> thisListener.Grl != nil)
+//@ func (thisListener *GruleV3ParserListener) ExitThenScope(ctx) ()
+//@   serves C17 C20
+//@   opt alloc=1
+//@   requires LInv(thisListener) && RInv(thisListener) && ctx != nil
+//@   nopanic
+//@   modifies @listenerfx
+//@   ensures inv: LInv(thisListener)
+//@   ensures errorskept: errorsKept(thisListener)
+//@   ensures sticky: old(thisListener.StopParse) ==> thisListener.StopParse
+//@   ensures rules: RInv(thisListener) && (old(thisListener.Grl) != nil ==> thisListener.Grl != nil)
+//@ func (thisListener *GruleV3ParserListener) EnterThenExpressionList(ctx) ()
+//@   serves C17 C20
+//@   opt alloc=1
+//@   requires LInv(thisListener) && RInv(thisListener) && ctx != nil
+//@   nopanic
+//@   modifies @listenerfx
+//@   ensures inv: LInv(thisListener)
+//@   ensures errorskept: errorsKept(thisListener)
+//@   ensures sticky: old(thisListener.StopParse) ==> thisListener.StopParse
+//@   ensures rules: RInv(thisListener) && (old(thisListener.Grl) != nil ==> thisListener.Grl != nil)
+//@ func (thisListener *GruleV3ParserListener) ExitThenExpressionList(ctx) ()
+//@   serves C17 C20
+//@   opt alloc=1
+//@   requires LInv(thisListener) && RInv(thisListener) && ctx != nil
+//@   nopanic
+//@   modifies @listenerfx
+//@   ensures inv: LInv(thisListener)
+//@   ensures errorskept: errorsKept(thisListener)
+//@   ensures sticky: old(thisListener.StopParse) ==> thisListener.StopParse
+//@   ensures rules: RInv(thisListener) && (old(thisListener.Grl) != nil ==> thisListener.Grl != nil)
+//@ func (thisListener *GruleV3ParserListener) EnterThenExpression(ctx) ()
+//@   serves C17 C20
+//@   opt alloc=1
+//@   requires LInv(thisListener) && RInv(thisListener) && ctx != nil
+//@   nopanic
+//@   modifies @listenerfx
+//@   ensures inv: LInv(thisListener)
+//@   ensures errorskept: errorsKept(thisListener)
+//@   ensures sticky: old(thisListener.StopParse) ==> thisListener.StopParse
+//@   ensures rules: RInv(thisListener) && (old(thisListener.Grl) != nil ==> thisListener.Grl != nil)
+//@ func (thisListener *GruleV3ParserListener) ExitThenExpression(ctx) ()
+//@   serves C17 C20
+//@   opt alloc=1
+//@   requires LInv(thisListener) && RInv(thisListener) && ctx != nil
+//@   nopanic
+//@   modifies @listenerfx
+//@   ensures inv: LInv(thisListener)
+//@   ensures errorskept: errorsKept(thisListener)
+//@   ensures sticky: old(thisListener.StopParse) ==> thisListener.StopParse
+//@   ensures rules: RInv(thisListener) && (old(thisListener.Grl) != nil ==> thisListener.Grl != nil)
+//@ func (thisListener *GruleV3ParserListener) EnterAssignment(ctx) ()
+//@   serves C17 C20
+//@   opt alloc=1
+//@   requires LInv(thisListener) && RInv(thisListener) && ctx != nil
+//@   nopanic
+//@   modifies @listenerfx
+//@   ensures inv: LInv(thisListener)
+//@   ensures errorskept: errorsKept(thisListener)
+//@   ensures sticky: old(thisListener.StopParse) ==> thisListener.StopParse
+//@   ensures rules: RInv(thisListener) && (old(thisListener.Grl) != nil ==> thisListener.Grl != nil)
+//@ func (thisListener *GruleV3ParserListener) ExitAssignment(ctx) ()
+//@   serves C17 C20
+//@   opt alloc=1
+//@   requires LInv(thisListener) && RInv(thisListener) && ctx != nil
+//@   nopanic
+//@   modifies @listenerfx
+//@   ensures inv: LInv(thisListener)
+//@   ensures errorskept: errorsKept(thisListener)
+//@   ensures sticky: old(thisListener.StopParse) ==> thisListener.StopParse
+//@   ensures rules: RInv(thisListener) && (old(thisListener.Grl) != nil ==> thisListener.Grl != nil)
+//@ func (thisListener *GruleV3ParserListener) EnterExpression(ctx) ()
+//@   serves C17 C20
+//@   opt alloc=1
+//@   requires LInv(thisListener) && RInv(thisListener) && ctx != nil
+//@   nopanic
+//@   modifies @listenerfx
+//@   ensures inv: LInv(thisListener)
+//@   ensures errorskept: errorsKept(thisListener)
+//@   ensures sticky: old(thisListener.StopParse) ==> thisListener.StopParse
+//@   ensures rules: RInv(thisListener) && (old(thisListener.Grl) != nil ==> thisListener.Grl != nil)
+//@ func (thisListener *GruleV3ParserListener) EnterMulDivOperators(ctx) ()
+//@   serves C17 C20
+//@   opt alloc=1
+//@   requires LInv(thisListener) && RInv(thisListener) && ctx != nil
+//@   nopanic
+//@   modifies @listenerfx
+//@   ensures inv: LInv(thisListener)
+//@   ensures errorskept: errorsKept(thisListener)
+//@   ensures sticky: old(thisListener.StopParse) ==> thisListener.StopParse
+//@   ensures rules: RInv(thisListener) && (old(thisListener.Grl) != nil ==> thisListener.Grl != nil)
+//@ func (thisListener *GruleV3ParserListener) ExitMulDivOperators(ctx) ()
+//@   serves C17 C20
+//@   opt alloc=1
+//@   requires LInv(thisListener) && RInv(thisListener) && ctx != nil
+//@   nopanic
+//@   modifies @listenerfx
+//@   ensures inv: LInv(thisListener)
+//@   ensures errorskept: errorsKept(thisListener)
+//@   ensures sticky: old(thisListener.StopParse) ==> thisListener.StopParse
+//@   ensures rules: RInv(thisListener) && (old(thisListener.Grl) != nil ==> thisListener.Grl != nil)
+//@ func (thisListener *GruleV3ParserListener) EnterAddMinusOperators(ctx) ()
+//@   serves C17 C20
+//@   opt alloc=1
+//@   requires LInv(thisListener) && RInv(thisListener) && ctx != nil
+//@   nopanic
+//@   modifies @listenerfx
+//@   ensures inv: LInv(thisListener)
+//@   ensures errorskept: errorsKept(thisListener)
+//@   ensures sticky: old(thisListener.StopParse) ==> thisListener.StopParse
+//@   ensures rules: RInv(thisListener) && (old(thisListener.Grl) != nil ==> thisListener.Grl != nil)
+//@ func (thisListener *GruleV3ParserListener) ExitAddMinusOperators(ctx) ()
+//@   serves C17 C20
+//@   opt alloc=1
+//@   requires LInv(thisListener) && RInv(thisListener) && ctx != nil
+//@   nopanic
+//@   modifies @listenerfx
+//@   ensures inv: LInv(thisListener)
+//@   ensures errorskept: errorsKept(thisListener)
+//@   ensures sticky: old(thisListener.StopParse) ==> thisListener.StopParse
+//@   ensures rules: RInv(thisListener) && (old(thisListener.Grl) != nil ==> thisListener.Grl != nil)
+//@ func (thisListener *GruleV3ParserListener) EnterComparisonOperator(ctx) ()
+//@   serves C17 C20
+//@   opt alloc=1
+//@   requires LInv(thisListener) && RInv(thisListener) && ctx != nil
+//@   nopanic
+//@   modifies @listenerfx
+//@   ensures inv: LInv(thisListener)
+//@   ensures errorskept: errorsKept(thisListener)
+//@   ensures sticky: old(thisListener.StopParse) ==> thisListener.StopParse
+//@   ensures rules: RInv(thisListener) && (old(thisListener.Grl) != nil ==> thisListener.Grl != nil)
+//@ func (thisListener *GruleV3ParserListener) ExitComparisonOperator(ctx) ()
+//@   serves C17 C20
+//@   opt alloc=1
+//@   requires LInv(thisListener) && RInv(thisListener) && ctx != nil
+//@   nopanic
+//@   modifies @listenerfx
+//@   ensures inv: LInv(thisListener)
+//@   ensures errorskept: errorsKept(thisListener)
+//@   ensures sticky: old(thisListener.StopParse) ==> thisListener.StopParse
+//@   ensures rules: RInv(thisListener) && (old(thisListener.Grl) != nil ==> thisListener.Grl != nil)
+//@ func (thisListener *GruleV3ParserListener) EnterAndLogicOperator(ctx) ()
+//@   serves C17 C20
+//@   opt alloc=1
+//@   requires LInv(thisListener) && RInv(thisListener) && ctx != nil
+//@   nopanic
+//@   modifies @listenerfx
+//@   ensures inv: LInv(thisListener)
+//@   ensures errorskept: errorsKept(thisListener)
+//@   ensures sticky: old(thisListener.StopParse) ==> thisListener.StopParse
+//@   ensures rules: RInv(thisListener) && (old(thisListener.Grl) != nil ==> thisListener.Grl != nil)
+//@ func (thisListener *GruleV3ParserListener) ExitAndLogicOperator(ctx) ()
+//@   serves C17 C20
+//@   opt alloc=1
+//@   requires LInv(thisListener) && RInv(thisListener) && ctx != nil
+//@   nopanic
+//@   modifies @listenerfx
+//@   ensures inv: LInv(thisListener)
+//@   ensures errorskept: errorsKept(thisListener)
+//@   ensures sticky: old(thisListener.StopParse) ==> thisListener.StopParse
+//@   ensures rules: RInv(thisListener) && (old(thisListener.Grl) != nil ==> thisListener.Grl != nil)
+//@ func (thisListener *GruleV3ParserListener) EnterOrLogicOperator(ctx) ()
+//@   serves C17 C20
+//@   opt alloc=1
+//@   requires LInv(thisListener) && RInv(thisListener) && ctx != nil
+//@   nopanic
+//@   modifies @listenerfx
+//@   ensures inv: LInv(thisListener)
+//@   ensures errorskept: errorsKept(thisListener)
+//@   ensures sticky: old(thisListener.StopParse) ==> thisListener.StopParse
+//@   ensures rules: RInv(thisListener) && (old(thisListener.Grl) != nil ==> thisListener.Grl != nil)
+//@ func (thisListener *GruleV3ParserListener) ExitOrLogicOperator(ctx) ()
+//@   serves C17 C20
+//@   opt alloc=1
+//@   requires LInv(thisListener) && RInv(thisListener) && ctx != nil
+//@   nopanic
+//@   modifies @listenerfx
+//@   ensures inv: LInv(thisListener)
+//@   ensures errorskept: errorsKept(thisListener)
+//@   ensures sticky: old(thisListener.StopParse) ==> thisListener.StopParse
+//@   ensures rules: RInv(thisListener) && (old(thisListener.Grl) != nil ==> thisListener.Grl != nil)
+//@ func (thisListener *GruleV3ParserListener) EnterExpressionAtom(ctx) ()
+//@   serves C17 C20
+//@   opt alloc=1
+//@   requires LInv(thisListener) && RInv(thisListener) && ctx != nil
+//@   nopanic
+//@   modifies @listenerfx
+//@   ensures inv: LInv(thisListener)
+//@   ensures errorskept: errorsKept(thisListener)
+//@   ensures sticky: old(thisListener.StopParse) ==> thisListener.StopParse
+//@   ensures rules: RInv(thisListener) && (old(thisListener.Grl) != nil ==> thisListener.Grl != nil)
+//@ func (thisListener *GruleV3ParserListener) EnterArrayMapSelector(ctx) ()
+//@   serves C17 C20
+//@   opt alloc=1
+//@   requires LInv(thisListener) && RInv(thisListener) && ctx != nil
+//@   nopanic
+//@   modifies @listenerfx
+//@   ensures inv: LInv(thisListener)
+//@   ensures errorskept: errorsKept(thisListener)
+//@   ensures sticky: old(thisListener.StopParse) ==> thisListener.StopParse
+//@   ensures rules: RInv(thisListener) && (old(thisListener.Grl) != nil ==> thisListener.Grl != nil)
+//@ func (thisListener *GruleV3ParserListener) ExitArrayMapSelector(ctx) ()
+//@   serves C17 C20
+//@   opt alloc=1
+//@   requires LInv(thisListener) && RInv(thisListener) && ctx != nil
+//@   nopanic
+//@   modifies @listenerfx
+//@   ensures inv: LInv(thisListener)
+//@   ensures errorskept: errorsKept(thisListener)
+//@   ensures sticky: old(thisListener.StopParse) ==> thisListener.StopParse
+//@   ensures rules: RInv(thisListener) && (old(thisListener.Grl) != nil ==> thisListener.Grl != nil)
+//@ func (thisListener *GruleV3ParserListener) EnterFunctionCall(ctx) ()
+//@   serves C17 C20
+//@   opt alloc=1
+//@   requires LInv(thisListener) && RInv(thisListener) && ctx != nil
+// T-ANTLR / walk order (ASSUMED): children the grammar requires are present; below a rule entry the stack holds the listener's own Grl
+//@   requires antlr_SIMPLENAME(ctx) != nil
+//@   nopanic
+//@   modifies @listenerfx
+//@   ensures inv: LInv(thisListener)
+//@   ensures errorskept: errorsKept(thisListener)
+//@   ensures sticky: old(thisListener.StopParse) ==> thisListener.StopParse
+//@   ensures rules: RInv(thisListener) && (old(thisListener.Grl) != nil ==> thisListener.Grl != nil)
+//@ func (thisListener *GruleV3ParserListener) ExitFunctionCall(ctx) ()
+//@   serves C17 C20
+//@   opt alloc=1
+//@   requires LInv(thisListener) && RInv(thisListener) && ctx != nil
+//@   nopanic
+//@   modifies @listenerfx
+//@   ensures inv: LInv(thisListener)
+//@   ensures errorskept: errorsKept(thisListener)
+//@   ensures sticky: old(thisListener.StopParse) ==> thisListener.StopParse
+//@   ensures rules: RInv(thisListener) && (old(thisListener.Grl) != nil ==> thisListener.Grl != nil)
+//@ func (thisListener *GruleV3ParserListener) EnterArgumentList(ctx) ()
+//@   serves C17 C20
+//@   opt alloc=1
+//@   requires LInv(thisListener) && RInv(thisListener) && ctx != nil
+//@   nopanic
+//@   modifies @listenerfx
+//@   ensures inv: LInv(thisListener)
+//@   ensures errorskept: errorsKept(thisListener)
+//@   ensures sticky: old(thisListener.StopParse) ==> thisListener.StopParse
+//@   ensures rules: RInv(thisListener) && (old(thisListener.Grl) != nil ==> thisListener.Grl != nil)
+//@ func (thisListener *GruleV3ParserListener) ExitArgumentList(ctx) ()
+//@   serves C17 C20
+//@   opt alloc=1
+//@   requires LInv(thisListener) && RInv(thisListener) && ctx != nil
+//@   nopanic
+//@   modifies @listenerfx
+//@   ensures inv: LInv(thisListener)
+//@   ensures errorskept: errorsKept(thisListener)
+//@   ensures sticky: old(thisListener.StopParse) ==> thisListener.StopParse
+//@   ensures rules: RInv(thisListener) && (old(thisListener.Grl) != nil ==> thisListener.Grl != nil)
+//@ func (thisListener *GruleV3ParserListener) EnterVariable(ctx) ()
+//@   serves C17 C20
+//@   opt alloc=1
+//@   requires LInv(thisListener) && RInv(thisListener) && ctx != nil
+//@   nopanic
+//@   modifies @listenerfx
+//@   ensures inv: LInv(thisListener)
+//@   ensures errorskept: errorsKept(thisListener)
+//@   ensures sticky: old(thisListener.StopParse) ==> thisListener.StopParse
+//@   ensures rules: RInv(thisListener) && (old(thisListener.Grl) != nil ==> thisListener.Grl != nil)
+//@ func (thisListener *GruleV3ParserListener) ExitVariable(ctx) ()
+//@   serves C17 C20
+//@   opt alloc=1
+//@   requires LInv(thisListener) && RInv(thisListener) && ctx != nil
+//@   nopanic
+//@   modifies @listenerfx
+//@   ensures inv: LInv(thisListener)
+//@   ensures errorskept: errorsKept(thisListener)
+//@   ensures sticky: old(thisListener.StopParse) ==> thisListener.StopParse
+//@   ensures rules: RInv(thisListener) && (old(thisListener.Grl) != nil ==> thisListener.Grl != nil)
+//@ func (thisListener *GruleV3ParserListener) EnterMemberVariable(ctx) ()
+//@   serves C17 C20
+//@   opt alloc=1
+//@   requires LInv(thisListener) && RInv(thisListener) && ctx != nil
+//@   nopanic
+//@   modifies @listenerfx
+//@   ensures inv: LInv(thisListener)
+//@   ensures errorskept: errorsKept(thisListener)
+//@   ensures sticky: old(thisListener.StopParse) ==> thisListener.StopParse
+//@   ensures rules: RInv(thisListener) && (old(thisListener.Grl) != nil ==> thisListener.Grl != nil)
+//@ func (thisListener *GruleV3ParserListener) ExitMemberVariable(ctx) ()
+//@   serves C17 C20
+//@   opt alloc=1
+//@   requires LInv(thisListener) && RInv(thisListener) && ctx != nil
+// T-ANTLR / walk order (ASSUMED): children the grammar requires are present; below a rule entry the stack holds the listener's own Grl
+//@   requires antlr_SIMPLENAME(ctx) != nil
+//@   nopanic
+//@   modifies @listenerfx
+//@   ensures inv: LInv(thisListener)
+//@   ensures errorskept: errorsKept(thisListener)
+//@   ensures sticky: old(thisListener.StopParse) ==> thisListener.StopParse
+//@   ensures rules: RInv(thisListener) && (old(thisListener.Grl) != nil ==> thisListener.Grl != nil)
+//@ func (thisListener *GruleV3ParserListener) EnterConstant(ctx) ()
+//@   serves C17 C20
+//@   opt alloc=1
+//@   requires LInv(thisListener) && RInv(thisListener) && ctx != nil
+//@   nopanic
+//@   modifies @listenerfx
+//@   ensures inv: LInv(thisListener)
+//@   ensures errorskept: errorsKept(thisListener)
+//@   ensures sticky: old(thisListener.StopParse) ==> thisListener.StopParse
+//@   ensures rules: RInv(thisListener) && (old(thisListener.Grl) != nil ==> thisListener.Grl != nil)
+//@ func (thisListener *GruleV3ParserListener) ExitConstant(ctx) ()
+//@   serves C17 C20
+//@   opt alloc=1
+//@   requires LInv(thisListener) && RInv(thisListener) && ctx != nil
+//@   nopanic
+//@   modifies @listenerfx
+//@   ensures inv: LInv(thisListener)
+//@   ensures errorskept: errorsKept(thisListener)
+//@   ensures sticky: old(thisListener.StopParse) ==> thisListener.StopParse
+//@   ensures rules: RInv(thisListener) && (old(thisListener.Grl) != nil ==> thisListener.Grl != nil)
+//@ func (thisListener *GruleV3ParserListener) EnterStringLiteral(ctx) ()
+//@   serves C17 C20
+//@   opt alloc=1
+//@   requires LInv(thisListener) && RInv(thisListener) && ctx != nil
+//@   nopanic
+//@   modifies @listenerfx
+//@   ensures inv: LInv(thisListener)
+//@   ensures errorskept: errorsKept(thisListener)
+//@   ensures sticky: old(thisListener.StopParse) ==> thisListener.StopParse
+//@   ensures rules: RInv(thisListener) && (old(thisListener.Grl) != nil ==> thisListener.Grl != nil)
+//@ func (thisListener *GruleV3ParserListener) ExitStringLiteral(ctx) ()
+//@   serves C17 C20
+//@   opt alloc=1
+//@   requires LInv(thisListener) && RInv(thisListener) && ctx != nil
+//@   nopanic
+//@   modifies @listenerfx
+//@   ensures inv: LInv(thisListener)
+//@   ensures errorskept: errorsKept(thisListener)
+//@   ensures sticky: old(thisListener.StopParse) ==> thisListener.StopParse
+//@   ensures rules: RInv(thisListener) && (old(thisListener.Grl) != nil ==> thisListener.Grl != nil)
+//@ func (thisListener *GruleV3ParserListener) EnterBooleanLiteral(ctx) ()
+//@   serves C17 C20
+//@   opt alloc=1
+//@   requires LInv(thisListener) && RInv(thisListener) && ctx != nil
+//@   nopanic
+//@   modifies @listenerfx
+//@   ensures inv: LInv(thisListener)
+//@   ensures errorskept: errorsKept(thisListener)
+//@   ensures sticky: old(thisListener.StopParse) ==> thisListener.StopParse
+//@   ensures rules: RInv(thisListener) && (old(thisListener.Grl) != nil ==> thisListener.Grl != nil)
+//@ func (thisListener *GruleV3ParserListener) ExitBooleanLiteral(ctx) ()
+//@   serves C17 C20
+//@   opt alloc=1
+//@   requires LInv(thisListener) && RInv(thisListener) && ctx != nil
+//@   nopanic
+//@   modifies @listenerfx
+//@   ensures inv: LInv(thisListener)
+//@   ensures errorskept: errorsKept(thisListener)
+//@   ensures sticky: old(thisListener.StopParse) ==> thisListener.StopParse
+//@   ensures rules: RInv(thisListener) && (old(thisListener.Grl) != nil ==> thisListener.Grl != nil)
+//@ func (thisListener *GruleV3ParserListener) EnterIntegerLiteral(ctx) ()
+//@   serves C17 C20
+//@   opt alloc=1
+//@   requires LInv(thisListener) && RInv(thisListener) && ctx != nil
+//@   nopanic
+//@   modifies @listenerfx
+//@   ensures inv: LInv(thisListener)
+//@   ensures errorskept: errorsKept(thisListener)
+//@   ensures sticky: old(thisListener.StopParse) ==> thisListener.StopParse
+//@   ensures rules: RInv(thisListener) && (old(thisListener.Grl) != nil ==> thisListener.Grl != nil)
+//@ func (thisListener *GruleV3ParserListener) ExitIntegerLiteral(ctx) ()
+//@   serves C17 C20
+//@   opt alloc=1
+//@   requires LInv(thisListener) && RInv(thisListener) && ctx != nil
+//@   nopanic
+//@   modifies @listenerfx
+//@   ensures inv: LInv(thisListener)
+//@   ensures errorskept: errorsKept(thisListener)
+//@   ensures sticky: old(thisListener.StopParse) ==> thisListener.StopParse
+//@   ensures rules: RInv(thisListener) && (old(thisListener.Grl) != nil ==> thisListener.Grl != nil)
+//@   ensures[C17,C20] literalerr: !fnok_ParseInt(antlr_GetText(ctx), 0, 64) ==> thisListener.StopParse && len(thisListener.ErrorCallback.Errors) > old(len(thisListener.ErrorCallback.Errors))
+//@ func (thisListener *GruleV3ParserListener) EnterFloatLiteral(ctx) ()
+//@   serves C17 C20
+//@   opt alloc=1
+//@   requires LInv(thisListener) && RInv(thisListener) && ctx != nil
+//@   nopanic
+//@   modifies @listenerfx
+//@   ensures inv: LInv(thisListener)
+//@   ensures errorskept: errorsKept(thisListener)
+//@   ensures sticky: old(thisListener.StopParse) ==> thisListener.StopParse
+//@   ensures rules: RInv(thisListener) && (old(thisListener.Grl) != nil ==> thisListener.Grl != nil)
+//@ func (thisListener *GruleV3ParserListener) ExitFloatLiteral(ctx) ()
+//@   serves C17 C20
+//@   opt alloc=1
+//@   requires LInv(thisListener) && RInv(thisListener) && ctx != nil
+//@   nopanic
+//@   modifies @listenerfx
+//@   ensures inv: LInv(thisListener)
+//@   ensures errorskept: errorsKept(thisListener)
+//@   ensures sticky: old(thisListener.StopParse) ==> thisListener.StopParse
+//@   ensures rules: RInv(thisListener) && (old(thisListener.Grl) != nil ==> thisListener.Grl != nil)
+//@   ensures[C17,C20] literalerr: !fnok_ParseFloat(antlr_GetText(ctx), 64) ==> thisListener.StopParse && len(thisListener.ErrorCallback.Errors) > old(len(thisListener.ErrorCallback.Errors))
